@@ -8,12 +8,12 @@ package main
 //   saveconc     (C10): concurrent saves through one store instance never mix up or corrupt sessions
 
 import (
-	"strconv"
-	"net"
 	"crypto/aes"
 	"crypto/cipher"
 	"fmt"
+	"net"
 	"net/http"
+	"strconv"
 	"strings"
 	"sync"
 	"time"
